@@ -156,6 +156,92 @@ def exc_name(st_exc):
     return "MutagenError" if st_exc[0] == "MutagenError" else st_exc[1]
 
 
+# ---------------------------------------------------------------------------------- extraction cross-check
+_VM_DONE = False
+
+
+def _gl(b):
+    return "[" + ";".join(str(x) for x in b) + "]"
+
+
+def _gunits(s):
+    b = s.encode("utf-16-le")
+    return "[" + ";".join(str(b[i] + 256 * b[i + 1]) for i in range(0, len(b), 2)) + "]"
+
+
+def _gattr(name, lang, stream, ty, v):
+    val = {0: lambda: "VText " + _gunits(v), 1: lambda: "VBytes " + _gl(v), 2: lambda: "VBool " + ("true" if v else "false"),
+           3: lambda: "VDword %d" % v, 4: lambda: "VQword %d" % v, 5: lambda: "VWord %d" % v, 6: lambda: "VGuid " + _gl(v)}[ty]()
+    opt = lambda x: "None" if x is None else "(Some %d)" % x
+    return "mkA %s (%s) %s %s" % (_gunits(name), val, opt(lang), opt(stream))
+
+
+def _gtree(tree):
+    out = []
+    for o in tree:
+        if o[0] == "L":
+            out.append("OLeaf %s %s" % (_gl(o[1]), _gl(o[2])))
+        else:
+            out.append("OExt %s [%s]" % (_gl(o[1]), ";".join("(%s, %s)" % (_gl(g), _gl(d)) for g, d in o[2])))
+    return "[" + ";".join(out) + "]"
+
+
+def _vm_bytes(res):
+    """'Ok [1; 2]' -> b'..', 'Raise EMutagen' -> 'raise'"""
+    import re
+    if res.startswith("Ok") or res.startswith("["):
+        return bytes(int(x) for x in re.findall(r"-?\d+", res.lstrip("Ok")))
+    return "raise"
+
+
+def vm_crosscheck(ctx):
+    """the same small cases evaluated by vm_compute inside Coq and by the extracted binary (extraction + driver)"""
+    global _VM_DONE
+    if _VM_DONE or not ctx.use_model:
+        return
+    _VM_DONE = True
+    import common
+    hext_fixed = bytes.fromhex("11D2D3ABBAA9CF118EE600C00C2053650600")
+    unk = bytes(range(16))
+    trees = [
+        [],
+        [["L", bytes.fromhex("A1DCAB8C47A9CF118EE400C00C205365"), bytes(64)], ["L", W.G_PAD, bytes(5)]],
+        [["E", hext_fixed, [(W.G_PAD, b"\0"), (unk, b"xy"), (W.G_META, b"\0\0")]], ["L", unk, b"abc"], ["L", W.G_CD, bytes(10)]],
+        [["L", W.G_ECD, b"\0\0"], ["E", bytes(18), []]],
+    ]
+    tagsets = [
+        [],
+        [("Title", None, None, 0, "Hi"), ("Title", None, None, 0, "x"), ("F", None, 1, 2, True), ("G", 2, None, 4, 2 ** 40)],
+        [("WM/X", None, None, 1, b"\x01\x02"), ("Author", None, None, 5, 7), ("N", None, 0, 3, 9), ("WM/X", None, None, 6, bytes(16))],
+    ]
+    modes = [("default", "cb_default"), ("c3", "(cb_const 3)"), ("keep", "cb_keep")]
+    cases, want = [], []
+    for i, tree in enumerate(trees):
+        data = b"DATA"[: i]
+        r = ctx.model.call("asf_build", enc_tree(tree), hx(data))
+        f0 = unhx(r[3:])
+        g0 = "(asf_build %s %s)" % (_gtree(tree), _gl(data))
+        cases.append(g0); want.append(f0)
+        for j, tags in enumerate(tagsets):
+            mode, gmode = modes[(i + j) % 3]
+            r = ctx.model.call("asf_save", hx(f0), enc_attrs(tags), mode)
+            want.append(unhx(r.split(" ")[1]) if r.startswith("ok ") else "raise")
+            cases.append("asf_save %s [%s] %s" % (g0, ";".join(_gattr(*a) for a in tags), gmode))
+        r = ctx.model.call("asf_delete", hx(f0))
+        want.append(unhx(r.split(" ")[1]) if r.startswith("ok ") else "raise")
+        cases.append("asf_delete %s" % g0)
+    pre = ("From Coq Require Import ZArith List Bool.\nImport ListNotations.\nRequire Import Base.Py Model.Fam_asf.\n"
+           "Open Scope Z_scope.")
+    res, out = common.vm_shard("fam_asf", pre, cases, timeout=300)
+    if res is None or len(res) != len(cases):
+        ctx.disagree("fam.asf.vm", "vm_compute shard failed", {"out": (out or "")[-300:]})
+        return
+    for c, r, w in zip(cases, res, want):
+        ctx.vm_cases += 1
+        if _vm_bytes(r) != w:
+            ctx.disagree("fam.asf.vm", "extracted binary and vm_compute differ", {"case": c[:200], "coq": r[:120]})
+
+
 # ---------------------------------------------------------------------------------- comparisons
 def compare_bytes(ctx, what, reply, after, exc, data):
     want_exc = exc_name(exc)
@@ -221,6 +307,7 @@ def check_after(ctx, what, after, data, walker=None, expect=None, expect_empty=F
 
 def check_step(ctx, kind, st):
     check_constants(ctx)
+    vm_crosscheck(ctx)
     op = st.op
     if op not in ("save", "fresh", "delete", "moddelete"):
         return
